@@ -630,6 +630,10 @@ fn c17(ctx: &Ctx) -> i32 {
         let seed = if k < 2 { 0xC17_5000 + k as u64 } else { ctx.seed.wrapping_mul(7919).wrapping_add(k as u64) };
         corpora.push(make_doc(&root, "c17", &format!("sp{}", k), seed, "sparse", k % 2 == 1));
     }
+    // one namespace with several hundred items
+    for k in 0..ctx.scale(1, 2) as usize {
+        corpora.push(make_doc(&root, "c17", &format!("big{}", k), 0xC17_B000 + k as u64, "big1", false));
+    }
     // "-used" = ignore_unused(true), the Builder's default
     let modes = ["single", "split", "workspace", "single-used", "split-used"];
     // jobs: (corpus, mode, run)
